@@ -16,7 +16,7 @@ Definition solve_bicg_legacy (itol : nat) (b x : list F) (max_iter : nat) (tol :
   let* st := bicg_start mulA rows cols itol b x in
   let '(r, bnrm, z) := st in
   iloop (bicg_body mulA mulAT rows itol tol bnrm) (bicg_final itol) max_iter 1
-        (mkBI x r r z (zeros rows) (zeros rows) (zeros rows) one one (norm2 x)).
+        (mkBI x r r z (zeros rows) (zeros rows) (zeros rows) one one (trace0 x one tol)).
 End Legacy.
 
 Definition legacy_s : sparse AF := @mkS AF 2 2 2 [2; 3]%float [0; 1] [0; 1; 2].   (* diag(2,3) *)
